@@ -608,7 +608,7 @@ func (bs *blockState) applySpec(c *Contract, display string, args []Val, rts []t
 			ex.trusted["assumed clause of "+display+": "+e.Label] = true
 		}
 	}
-	pre := &Env{Vars: map[string]Term{}, P: ex.P}
+	pre := &Env{Vars: map[string]Term{}, P: ex.P, Ren: c.Ren}
 	names := specParamNames(c, fn, len(args))
 	for i, a := range args {
 		if i >= len(names) {
@@ -670,7 +670,7 @@ func (bs *blockState) applySpec(c *Contract, display string, args []Val, rts []t
 		ex.oblige(fmt.Sprintf("%s#pre:%s:%s", fr.oblPrefix(), site, r.Label), "pre", implies(bs.reach, t), props, pos, r.Src)
 		ex.assume(bs.reach, t)
 	}
-	post := &Env{Vars: map[string]Term{}, P: ex.P, Old: pre}
+	post := &Env{Vars: map[string]Term{}, P: ex.P, Old: pre, Ren: c.Ren}
 	for k, v := range pre.Vars {
 		post.Vars[k] = v
 	}
